@@ -121,6 +121,20 @@ def run(F, R, tier):
     R.ob("C12-b", "the dependency list that goes into a cache entry records every referenced package of that referrer", not bad,
          "add_pending_nv can return without recording the dependency for this referrer (e.g. when the package was already seen through another referrer): a later cache hit for this referrer would not re-queue it", where(bad[0]) if bad else "")
 
+    # a validated cache entry becomes the package's result (with this run's entrypoints)
+    fdb = F.body("fast_check::range_finder::PublicRangeFinder::find")
+    tgc = [n for n in fdb["_nodes"] if callee_matches(n, ["PublicRangeFinder::try_get_cache_item"])]
+    hit_arms = [a_ for m_ in fdb["_nodes"] if m_.get("k") == "Match" and any(x is tgc[0] for x in walk(m_["scrut"])) for a_ in m_["arms"] if pat_text(a_["pat"]).startswith("std::option::Option::Some(")] if tgc else []
+    if R.ob("C12-b", "cache lookup result is dispatched on", len(hit_arms) == 1, "find no longer matches on try_get_cache_item", fdb["file"]):
+        arm = hit_arms[0]
+        binds = {b_["lid"] for b_ in pat_bindings(arm["pat"])}
+        ins = [n for n in walk(arm["body"]) if n.get("k") == "MethodCall" and n["name"] == "insert" and field_of(n["recv"]) == "public_ranges" and peel_value(n["args"][1]).get("lid") in binds]
+        bad, _ = must_pass(F, arm["body"], lambda n: n in ins, exit_kinds=("fallthrough", "continue", "break", "return"))
+        R.ob("C12-b", "a cache hit is published as the package's result on every path", len(ins) == 1 and not bad,
+             "the cache-hit arm of find does not insert the cached ranges into public_ranges: a package served from the cache would get no fast-check output at all, unlike the run that filled the cache", where(arm["body"]))
+        ep = [n for n in walk(arm["body"]) if n["k"] == "Assign" and field_of(n["l"]) == "entrypoints" and peel_value(peel(n["l"]).get("e", {})).get("lid") in binds]
+        R.ob("C12-b", "a cache hit carries this run's entrypoints", len(ep) == 1, "entrypoints of the cached ranges are not set", where(arm["body"]))
+
     # ---------------- C12-g (cache entries are complete) ---------------------
     ITEM_T = "FastCheckCacheModuleItem"
     cpush = [n for n in bf["_nodes"] if n.get("k") == "MethodCall" and n["name"] == "push" and tyc(F, n["recv"], ITEM_T) and peel(n["recv"]).get("res") == "local"]
